@@ -208,6 +208,12 @@ def cases(run):
            "lncRNA + 1 2 9 0")                                                                                # mixed gene
     yield f"coll E 0 LT 5 7 lab ~ {'ACGT' * 8} 1 lncRNA g0 1 lncRNA + 1 3 9 0"                                  # no seq name
     yield f"coll E 0 LT 5 7 lab chr1 {'ACGT' * 8} 1 lncRNA g0 1 lncRNA - 2 3 9 9 12 0"                          # F-C17c
+    # one exon, CDS of two / three ADJACENT blocks inside it (seeded change "single-exon transcripts skip merging")
+    for st in "+-":
+        for fr in (0, 1, 2):
+            yield (f"coll {'EP'[fr % 2]} 11 LT 5 7 lab chr1 {'ACGT' * 8} 1 protein_coding g0 1 protein_coding {st} "
+                   f"1 2 30 2 4 13 13 28 {fr} 0")
+            yield f"tblgene 11 {'ACGT' * 8} protein_coding g0 1 protein_coding {st} 1 2 30 3 4 9 9 13 13 28 {fr} 0"
     # ---- locstr: exhaustive small scope
     i = 0
     for k in (1, 2, 3):
@@ -255,6 +261,18 @@ def cases(run):
         gene = rng.choice(coll["genes"])
         run.count("tblgene")
         yield f"tblgene {rng.choice([0, 1, 11])} {coll['genome']} {G.enc_gene(gene)}"
+    # ---- guaranteed share: CDS block structure differs from the exon structure (both strands, all start frames)
+    #   one exon with a CDS of 2-3 adjacent blocks; multi-exon transcripts with a CDS block boundary inside an exon;
+    #   CDS blocks adjacent across a 0-bp exon boundary
+    shapes = [dict(max_exons=1, split_cds=1.0, p_coding=1.0, max_tx=2, genome_len=150, gene_span=90),
+              dict(max_exons=3, split_cds=1.0, p_coding=1.0, max_tx=2, genome_len=150, gene_span=90, p_adjacent=0.0),
+              dict(max_exons=3, split_cds=0.5, p_coding=1.0, max_tx=2, genome_len=150, gene_span=90, p_adjacent=1.0)]
+    for i in range(150 if quick else 3000):
+        coll, line = coll_case(rng, run, shapes[i % 3])
+        run.count("coll:cds-structure-differs-from-exons")
+        yield line
+        run.count("tblgene")
+        yield f"tblgene {rng.choice([0, 1, 11])} {coll['genome']} {G.enc_gene(rng.choice(coll['genes']))}"
     # seed 0 (F-C17a, repaired in /repo 2007fc1)
     for _ in range(6 if quick else 40):
         _, line = coll_case(rng, run, dict(genome_len=150, gene_span=90, p_adjacent=0.0, p_coding=1.0), seed=0)
